@@ -159,12 +159,15 @@ CLAIMS = {
         "of emitted frames is C14; lookup C03; buffers C18.",
    ref="7/C12"),
  "C15": dict(
-   text="Ten core parsers (ethernet, vlan incl. nested tags, llc, arp, ipv4, udp, icmp, echo, unreachable, time-exceeded) are "
+   text="Fourteen parsers (ethernet, vlan incl. nested tags, llc, arp, ipv4, udp, icmp, echo, unreachable, time-exceeded, mpls, "
+        "eapol, eap, vxlan) are "
         "proved total on arbitrary byte strings of any length: construction raises nothing, `parsed` is a bool, the remainder "
         "is bytes or a packet object, and pack() and str() of the result raise nothing (empty `raises`, every implicit "
         "run-time check is an obligation). All parsers reachable from ethernet.parse are exercised by a bounded stand-in over "
-        "every truncation and byte corruption of a corpus of valid frames of every protocol plus random frames; it found ten "
-        "genuine raising paths, all repaired (fix: commits).",
+        "every truncation and byte corruption of a corpus of valid frames of every protocol (ICMPv6 messages of every type with "
+        "valid checksums, extension-header chains, maximally nested VLAN / MPLS stacks, TCP headers filled with one long option, "
+        "DHCP long options ...) plus random frames; it found more than twenty genuine raising paths, all repaired (fix: commits). "
+        "The checksum routine the parsers call is proved total (C14 units, shared).",
    note="trusted: pyvc, z3; sub-parsers are callees in the proofs; TLV/text-walking parsers bounded only.",
    ref="7/C15"),
  "C14": dict(
@@ -184,9 +187,11 @@ CLAIMS = {
         "type, unknown flow-mod command, port mod - each sends exactly one reply or the specified error carrying the request's "
         "xid (or nothing where none is due), with the specified contents, and every reply's real pack() is evaluated in the "
         "postcondition (it encodes and declares its own length); port-mod changes exactly the masked config bits, link state "
-        "follows PORT_DOWN, one port-status per link-state change.",
+        "follows PORT_DOWN, one port-status per link-state change. FlowTable.aggregate_stats is proved for ANY number of selected "
+        "entries (ghost prefix sums). A request with a malformed body is answered with ONE bad-length error carrying its own xid "
+        "and bytes; undecodable requests of any claimed length never make the read loop fail (C10 unit, shared).",
    note="trusted: pyvc, z3; connection.send is a callee (C20). Reply ORDER over a request sequence follows from synchronous "
-        "handlers (argument, not a lemma). desc stats / flow stats over non-empty tables not under contract.",
+        "handlers (argument, not a lemma). desc stats / flow stats bodies over non-empty tables not under contract.",
    ref="7/C13"),
  "C04": dict(
    text="Per-operation contracts = specification step: entry timeouts (no earlier than idle/hard timeout, traffic refreshes only "
@@ -251,9 +256,14 @@ CLAIMS = {
         "specified layout (field order, widths, padding, type code, length field), len(obj) equals the byte count, decoding "
         "consumes exactly that many bytes, yields an equal object, and re-encoding reproduces the bytes - discharged for all "
         "field values / payloads / wildcard words by SMT on VCs generated from the real functions' ASTs. Lists (actions, ports, "
-        "queues, stats entries) are proved for fixed lengths 0..2 only (reported as bounded). Nicira extensions: bounded stand-in.",
+        "queues, stats entries) are proved for fixed lengths 0..2 only (reported as bounded). Every message is decoded in the middle of a "
+        "buffer (bytes in front and behind). Nicira extensions: the 16 fixed-layout messages and actions (role request / reply, "
+        "packet-in format, flow-mod table id, async config and its mask setters, resubmit, set_tunnel(64), fin_timeout, exit, dec_ttl, "
+        "controller, push / pop mpls, mpls label / tc) have table-generated contracts like the OpenFlow classes (tables: "
+        "spec/nx_layout.py); NXM entries, nx_match, nx_flow_mod, nxt_packet_in, learn / bundle / reg actions: bounded stand-in.",
    note="trusted: pyvc encoding of Python semantics, z3/cvc5, struct axioms, layout tables transcribed from memory of openflow.h "
-        "(cross-checked against its sizeof asserts). List lengths > 2 and the Nicira module are not proved (bounded only). "
+        "(cross-checked against its sizeof asserts), likewise nicira-ext.h. List lengths > 2 and the NXM-based part of the Nicira module "
+        "are not proved (bounded only). "
         "Known finding: matches with unmet protocol prerequisites do not round-trip.",
    ref="7/C01"),
  "C16": dict(
